@@ -873,6 +873,28 @@ func (e *Engine) enter(s *State, f *Frame, from, to *ssa.BasicBlock) {
 	if m := e.loops[f.fn.String()]; m != nil {
 		ann = m[ord]
 	}
+	// Robustness against harmless restructuring (a loop extracted into a helper, a loop added before this one): if the
+	// annotation registered for this ordinal names locals this function no longer has at this loop, use the
+	// annotation of another ordinal of the same function whose locals all bind here (and say so).
+	if ann != nil && len(ann.Invs) > 0 && !e.annBinds(f, ann) {
+		var alt *LoopAnn
+		for o2, a2 := range e.loops[f.fn.String()] {
+			if o2 != ord && len(a2.Invs) > 0 && e.annBinds(f, a2) {
+				if alt != nil {
+					alt = nil // ambiguous: keep the registered one (and fail loudly)
+					break
+				}
+				alt = a2
+			}
+		}
+		if alt != nil {
+			if e.rebound == nil {
+				e.rebound = map[string]bool{}
+			}
+			e.rebound[fmt.Sprintf("%s: the loop annotation registered for another ordinal was bound to loop %d (the function's loop structure changed)", shortName(f.fn.String()), ord)] = true
+			ann = alt
+		}
+	}
 	if e.curT != nil { // an annotation scoped to the target being verified wins
 		for _, key := range []string{e.curT.Fn.Name(), argVal(e.curT.D, "as")} {
 			if a := e.loopsFor[f.fn.String()+"|"+fmt.Sprint(ord)+"|"+key]; a != nil && key != "" {
@@ -1093,10 +1115,19 @@ func (e *Engine) specArgs(s *State, f *Frame, fn *ssa.Function, results []Val) [
 			fmt.Sscanf(nm, "res%d", &i)
 			args = append(args, results[i])
 		default:
+			if _, aliased := f.entry["$alias:"+nm]; aliased { // bound to rangeindex+1 when the loop was entered: stay with it
+				if v, ok := e.rangeAlias(s, f, nm, p.Type()); ok {
+					args = append(args, v)
+					continue
+				}
+			}
 			if c, ok := f.entry["$cell:"+nm]; ok {
 				args = append(args, s.cellv[c.(*Cell)])
 			} else if p2, ok := f.entry["$ptr:"+nm]; ok {
 				args = append(args, e.load(s, p2.(PtrV), p.Type()))
+			} else if v, ok := e.rangeAlias(s, f, nm, p.Type()); ok {
+				f.entry["$alias:"+nm] = boolT(true)
+				args = append(args, v)
 			} else {
 				panic("spec parameter " + nm + " not found in scope of " + f.fn.Name())
 			}
@@ -1606,6 +1637,25 @@ func (e *Engine) callFn(s *State, f *Frame, fn *ssa.Function, args []Val, bind [
 		f.env[x] = e.evalPure(s, fn, args, bind)
 		return true
 	}
+	// a helper that only computes a scalar from scalars (no heap, no calls out, no operation that can panic) is
+	// evaluated in merged mode: its paths become ONE term instead of multiplying the caller's paths (a 23-step bit
+	// scan extracted into a helper would otherwise turn every path of its caller into 24)
+	if x != nil && !deferred && len(bind) == 0 && e.pureScalar(fn, 0) {
+		allTerms := true
+		for _, a := range args {
+			if _, ok := a.(Term); !ok {
+				allTerms = false
+			}
+		}
+		if allTerms {
+			if e.inlined == nil {
+				e.inlined = map[string]bool{}
+			}
+			e.inlined[shortName(fn.String())+" (pure scalar helper: evaluated as one merged term)"] = true
+			f.env[x] = e.evalPure(s, fn, args, nil)
+			return true
+		}
+	}
 	if len(s.frames) > 64 {
 		panic("inlining too deep at " + fn.String())
 	}
@@ -1913,4 +1963,161 @@ func (e *Engine) havocStructSafe(s *State, p PtrV) {
 			e.storeHeapVal(s, nm, p.Ref, ft, e.symbolic(s, "hv", ft))
 		}()
 	}
+}
+
+// annBinds: every local the annotation's invariant / variant functions name exists in frame f at this point.
+func (e *Engine) annBinds(f *Frame, ann *LoopAnn) bool {
+	names := append([]string{}, ann.Invs...)
+	if ann.Decr != "" {
+		names = append(names, ann.Decr)
+	}
+	for _, nm := range names {
+		fn := f.fn.Pkg.Func(nm)
+		if fn == nil {
+			return false
+		}
+		for _, p := range fn.Params {
+			pn := p.Name()
+			if strings.HasPrefix(pn, "old_") || (strings.HasPrefix(pn, "head") && strings.Contains(pn, "_")) {
+				continue
+			}
+			if _, ok := f.entry["$cell:"+pn]; ok {
+				continue
+			}
+			if _, ok := f.entry["$ptr:"+pn]; ok {
+				continue
+			}
+			if _, ok := e.rangeAlias(nil, f, pn, p.Type()); ok {
+				continue
+			}
+			return false
+		}
+	}
+	return true
+}
+
+// rangeAlias: an invariant written for `for i := 0; i < len(x); i++` names the counter i; after the harmless
+// rewrite to `for i := range x` the counter lives in go/ssa's hidden "rangeindex" (one behind: it is incremented at
+// the loop head) and i is only assigned inside the body. The invariant's i is then rangeindex+1 - the index the
+// next iteration will use, which is what i meant at the head of the classic loop.
+func (e *Engine) rangeAlias(s *State, f *Frame, nm string, t types.Type) (Val, bool) {
+	b, isB := t.Underlying().(*types.Basic)
+	if !isB || b.Kind() != types.Int {
+		return nil, false
+	}
+	c, ok := f.entry["$cell:rangeindex"]
+	if !ok {
+		return nil, false
+	}
+	declared := false
+	for _, blk := range f.fn.Blocks {
+		for _, in := range blk.Instrs {
+			if a, ok := in.(*ssa.Alloc); ok && a.Comment == nm {
+				declared = true
+			}
+		}
+	}
+	if !declared {
+		return nil, false
+	}
+	if s == nil {
+		return intT(0), true
+	}
+	ri, ok := s.cellv[c.(*Cell)].(Term)
+	if !ok {
+		return nil, false
+	}
+	if e.rebound == nil {
+		e.rebound = map[string]bool{}
+	}
+	e.rebound[fmt.Sprintf("%s: invariant parameter %s bound to rangeindex+1 (the loop was rewritten from a counting loop to a range loop)", shortName(f.fn.String()), nm)] = true
+	return e.name(s, iadd(ri, intT(1))), true
+}
+
+// pureScalar: fn takes and returns scalars only and its body consists of arithmetic on locals, branches and calls of
+// functions of the same kind - nothing that touches the heap, leaves the verified code or can panic.
+func (e *Engine) pureScalar(fn *ssa.Function, depth int) bool {
+	if e.pureFn == nil {
+		e.pureFn = map[*ssa.Function]bool{}
+	}
+	if v, ok := e.pureFn[fn]; ok {
+		return v
+	}
+	e.pureFn[fn] = false // (recursion counts as not pure)
+	if fn == nil || len(fn.Blocks) == 0 || depth > 3 || len(fn.FreeVars) > 0 {
+		return notPure(fn, 1)
+	}
+	if _, has := e.contracts[fn.String()]; has {
+		return notPure(fn, 2)
+	}
+	isScalar := func(t types.Type) bool {
+		b, ok := t.Underlying().(*types.Basic)
+		return ok && b.Info()&(types.IsInteger|types.IsBoolean) != 0
+	}
+	sig := fn.Signature
+	if sig.Recv() != nil || sig.Results().Len() != 1 || !isScalar(sig.Results().At(0).Type()) {
+		return notPure(fn, 3)
+	}
+	for i := 0; i < sig.Params().Len(); i++ {
+		if !isScalar(sig.Params().At(i).Type()) {
+			return notPure(fn, 4)
+		}
+	}
+	for _, b := range fn.Blocks {
+		for _, in := range b.Instrs {
+			switch x := in.(type) {
+			case *ssa.RunDefers: // (NaiveForm emits the defer bookkeeping even when nothing is deferred; a Defer is rejected below)
+			case *ssa.Alloc:
+				if x.Comment == "defer$stack" {
+					continue
+				}
+				if x.Heap || !isScalar(x.Type().(*types.Pointer).Elem()) {
+					return notPure(fn, 5)
+				}
+			case *ssa.Store:
+				if _, ok := x.Addr.(*ssa.Alloc); !ok {
+					return notPure(fn, 6)
+				}
+			case *ssa.UnOp:
+				if x.Op == token.MUL {
+					if _, ok := x.X.(*ssa.Alloc); !ok {
+						return notPure(fn, 7)
+					}
+				} else if x.Op == token.ARROW {
+					return notPure(fn, 8)
+				}
+			case *ssa.BinOp:
+				if x.Op == token.QUO || x.Op == token.REM {
+					return notPure(fn, 9)
+				}
+			case *ssa.Convert:
+				if !isScalar(x.Type()) || !isScalar(x.X.Type()) {
+					return notPure(fn, 10)
+				}
+			case *ssa.ChangeType, *ssa.Phi, *ssa.If, *ssa.Jump, *ssa.Return, *ssa.DebugRef:
+			case *ssa.Call:
+				if b, ok := x.Call.Value.(*ssa.Builtin); ok && b.Name() == "ssa:deferstack" {
+					continue
+				}
+				callee := x.Call.StaticCallee()
+				if callee == nil || x.Call.IsInvoke() || !e.pureScalar(callee, depth+1) {
+					return notPure(fn, 11)
+				}
+			default:
+				if os.Getenv("GOVC_PUREDBG") != "" {
+					fmt.Fprintf(os.Stderr, "not pure %s: %T %s\n", fn, in, in)
+				}
+				return notPure(fn, 12)
+			}
+		}
+	}
+	e.pureFn[fn] = true
+	return true
+}
+
+func notPure(fn *ssa.Function, where int) bool {
+	if os.Getenv("GOVC_PUREDBG") != "" && fn != nil {
+		fmt.Fprintf(os.Stderr, "not pure %s: rule %d\n", fn, where)
+	}
+	return false
 }
